@@ -444,7 +444,7 @@ pub fn c13(ctx: &Ctx) -> i32 {
 
 pub fn c14(ctx: &Ctx) -> i32 {
     let mout = run_market_spec(ctx, "c14", MK_ASSET, &[0, 1, 2, 3, 4, 5], ctx.tier.pick(20_000, 400_000), 200);
-    let espec = EnvSpec { check: "c14", flags: E_ASSET | E_STEP, env_types: multi_types(), sessions: ctx.tier.pick(10_000, 250_000), max_steps: 25, toggle_rate: 0.05, offgrid_rate: 0.0 };
+    let espec = EnvSpec { check: "c14", flags: E_ASSET | E_STEP | E_REC, env_types: multi_types(), sessions: ctx.tier.pick(10_000, 250_000), max_steps: 25, toggle_rate: 0.05, offgrid_rate: 0.0 };
     let eout = run_env_spec(ctx, &espec);
     let m = &mout.census;
     let mut violations = mout.violations;
@@ -494,6 +494,11 @@ struct ShuffleTables {
     distinct: Vec<u64>,
     content_checks: u64,
     replay_checks: u64,
+    kind_pairs: u64,
+    cancel_first: u64,
+    /// same-step (new x, cancel x) and (new x, modify x) pairs: [cancel, modify]
+    dep_pairs: [u64; 2],
+    dep_effective: [u64; 2],
 }
 
 impl ShuffleTables {
@@ -509,6 +514,10 @@ impl ShuffleTables {
             distinct: Vec::new(),
             content_checks: 0,
             replay_checks: 0,
+            kind_pairs: 0,
+            cancel_first: 0,
+            dep_pairs: [0; 2],
+            dep_effective: [0; 2],
         }
     }
     fn record(&mut self, posmap: &[usize]) {
@@ -571,12 +580,18 @@ impl ShuffleTables {
         self.distinct.extend(o.distinct);
         self.content_checks += o.content_checks;
         self.replay_checks += o.replay_checks;
+        self.kind_pairs += o.kind_pairs;
+        self.cancel_first += o.cancel_first;
+        for k in 0..2 {
+            self.dep_pairs[k] += o.dep_pairs[k];
+            self.dep_effective[k] += o.dep_effective[k];
+        }
     }
 }
 
 /// One seeded step with `n` instructions whose processed positions are all visible. Returns the
 /// position map (item k was processed at position p) or an error description.
-fn shuffle_step<E: SimEnv>(env: &mut E, xr: &mut Xoroshiro128StarStar, rng: &mut Sm, n: usize, mixed: bool, content_variant: u64, ticks: &[u32]) -> Result<(Vec<usize>, bool), String> {
+fn shuffle_step<E: SimEnv>(env: &mut E, xr: &mut Xoroshiro128StarStar, rng: &mut Sm, n: usize, mixed: bool, content_variant: u64, ticks: &[u32]) -> Result<(Vec<usize>, Option<bool>), String> {
     let assets = E::ASSETS;
     let start = env.time();
     let mut items: Vec<(usize, usize, bool)> = Vec::new(); // (asset, id, is_cancel)
@@ -631,7 +646,60 @@ fn shuffle_step<E: SimEnv>(env: &mut E, xr: &mut Xoroshiro128StarStar, rng: &mut
         return Err(format!("unobservable: two instructions carry the same time-stamp {:?} (start {})", times, start));
     }
     let pos: Vec<usize> = times.iter().map(|t| sorted.binary_search(t).unwrap()).collect();
-    Ok((pos, used_mixed))
+    // one (cancel, new) pair per step: was the cancellation processed before the new order?
+    let first_cancel = items.iter().position(|i| i.2);
+    let first_new = items.iter().position(|i| !i.2);
+    let kind_pair = match (used_mixed, first_cancel, first_new) {
+        (true, Some(c), Some(nw)) => Some(pos[c] < pos[nw]),
+        _ => None,
+    };
+    Ok((pos, kind_pair))
+}
+
+/// A step that contains a new order AND a cancellation (or re-pricing modify) of that same order,
+/// next to `n - 2` unrelated new orders. Under an unbiased, content-independent shuffle the dependent
+/// instruction is processed after its order's placement with probability 1/2, which is visible in the
+/// order's final state. Returns Some(true) iff the dependent instruction took effect.
+fn pair_step<E: SimEnv>(env: &mut E, xr: &mut Xoroshiro128StarStar, rng: &mut Sm, n: usize, use_modify: bool, ticks: &[u32]) -> Result<bool, String> {
+    let assets = E::ASSETS;
+    let a = rng.below(assets as u64) as usize;
+    let slot = rng.below(n as u64 - 1) as usize; // submission index of the pair's New
+    let mut target: Option<usize> = None;
+    let mut dep_submitted = false;
+    let dep_at = rng.range(slot as u64 + 1, n as u64 - 1) as usize; // the dependent instruction is submitted later
+    let mut k = 0;
+    while k < n {
+        if k == slot {
+            let (_, id) = env.place(a, true, 7, 1, Some(20 * ticks[a]))?;
+            target = Some(id);
+        } else if k == dep_at {
+            let id = target.unwrap();
+            if use_modify {
+                env.modify(a, id, Some(10 * ticks[a]), None);
+            } else {
+                env.cancel(a, id);
+            }
+            dep_submitted = true;
+        } else {
+            let b = rng.below(assets as u64) as usize;
+            let bid = rng.chance(0.5);
+            let kk = if bid { rng.range(30, 40) } else { rng.range(60, 90) };
+            env.place(b, bid, rng.range(1, 20) as u32, 1, Some((kk * ticks[b] as u64) as u32))?;
+        }
+        k += 1;
+    }
+    if !dep_submitted {
+        return Err("unobservable: pair not submitted".into());
+    }
+    env.do_step(xr);
+    let o = env.book(a).order(target.unwrap());
+    if o.status == NEW {
+        return Err(format!("unobservable: new order ({}, {}) was not placed by the step", a, target.unwrap()));
+    }
+    let took_effect = if use_modify { o.price == 10 * ticks[a] } else { o.status == CANCELLED };
+    // clean up so that the book does not grow without bound
+    env.cancel(a, target.unwrap());
+    Ok(took_effect)
 }
 
 fn shuffle_worker<E: SimEnv>(seed: u64, work: &[(usize, u64)], t: &mut ShuffleTables, fails: &mut Vec<(String, String)>) {
@@ -651,10 +719,14 @@ fn shuffle_worker<E: SimEnv>(seed: u64, work: &[(usize, u64)], t: &mut ShuffleTa
                 let xr_before = xr.clone();
                 let content = rng.next();
                 match shuffle_step(&mut env, &mut xr, &mut rng, *n, mixed, content, &ticks) {
-                    Ok((pos, used_mixed)) => {
+                    Ok((pos, kind_pair)) => {
                         t.record(&pos);
-                        if used_mixed {
+                        if let Some(cf) = kind_pair {
                             t.mixed_steps += 1;
+                            t.kind_pairs += 1;
+                            if cf {
+                                t.cancel_first += 1;
+                            }
                         }
                         if assets > 1 {
                             t.multi_asset_steps += 1;
@@ -698,6 +770,24 @@ fn shuffle_worker<E: SimEnv>(seed: u64, work: &[(usize, u64)], t: &mut ShuffleTa
                 }
                 done += 1;
             }
+            // same-step dependent pairs (only for small and medium batches; one pair per step)
+            if *n >= 2 && *n <= 16 {
+                for q in 0..4 {
+                    match pair_step(&mut env, &mut xr, &mut rng, *n, q % 2 == 1, &ticks) {
+                        Ok(effect) => {
+                            let slot = if q % 2 == 1 { 1 } else { 0 };
+                            t.dep_pairs[slot] += 1;
+                            if effect {
+                                t.dep_effective[slot] += 1;
+                            }
+                        }
+                        Err(e) => {
+                            fails.push(("unobservable".into(), e));
+                            return;
+                        }
+                    }
+                }
+            }
             if fails.len() > 3 {
                 return;
             }
@@ -708,7 +798,7 @@ fn shuffle_worker<E: SimEnv>(seed: u64, work: &[(usize, u64)], t: &mut ShuffleTa
 pub fn c15(ctx: &Ctx) -> i32 {
     let scale = ctx.tier.pick(1u64, 10u64);
     // (n, steps) work list; split into chunks for the worker threads
-    let plan: Vec<(usize, u64)> = vec![(2, 200_000), (3, 200_000), (4, 200_000), (5, 200_000), (6, 2_000_000), (8, 100_000), (16, 100_000), (32, 100_000), (64, 100_000)];
+    let plan: Vec<(usize, u64)> = vec![(2, 200_000), (3, 200_000), (4, 200_000), (5, 200_000), (6, 2_000_000), (7, 100_000), (8, 100_000), (9, 60_000), (10, 60_000), (11, 60_000), (12, 60_000), (13, 60_000), (16, 100_000), (24, 60_000), (32, 100_000), (48, 60_000), (64, 100_000)];
     let mut chunks: Vec<(usize, usize, u64)> = Vec::new(); // (env kind, n, steps)
     for (n, steps) in &plan {
         let total = steps * scale;
@@ -724,12 +814,12 @@ pub fn c15(ctx: &Ctx) -> i32 {
         }
     }
     let next = AtomicUsize::new(0);
-    let merged = Mutex::new((ShuffleTables::new(), Vec::<(String, String)>::new()));
+    let merged = Mutex::new(([ShuffleTables::new(), ShuffleTables::new()], Vec::<(String, String)>::new()));
     std::thread::scope(|s| {
         for _ in 0..ctx.threads.max(1) {
             s.spawn(|| {
                 crate::util::install_quiet_panic_hook();
-                let mut t = ShuffleTables::new();
+                let mut ts = [ShuffleTables::new(), ShuffleTables::new()];
                 let mut fails = Vec::new();
                 loop {
                     let i = next.fetch_add(1, Ordering::Relaxed);
@@ -738,11 +828,12 @@ pub fn c15(ctx: &Ctx) -> i32 {
                     }
                     let (kind, n, steps) = chunks[i];
                     let seed = Sm::derive(ctx.seed, 0xF15 + i as u64).next();
+                    let t = &mut ts[kind];
                     let r = catch(|| {
                         if kind == 0 {
-                            shuffle_worker::<bourse_de::Env<10>>(seed, &[(n, steps)], &mut t, &mut fails)
+                            shuffle_worker::<bourse_de::Env<10>>(seed, &[(n, steps)], t, &mut fails)
                         } else {
-                            shuffle_worker::<bourse_de::MarketEnv<2, 10>>(seed, &[(n, steps)], &mut t, &mut fails)
+                            shuffle_worker::<bourse_de::MarketEnv<2, 10>>(seed, &[(n, steps)], t, &mut fails)
                         }
                     });
                     if let Err(p) = r {
@@ -750,78 +841,105 @@ pub fn c15(ctx: &Ctx) -> i32 {
                     }
                 }
                 let mut m = merged.lock().unwrap();
-                m.0.merge(t);
+                let [t0, t1] = ts;
+                m.0[0].merge(t0);
+                m.0[1].merge(t1);
                 m.1.extend(fails);
             });
         }
     });
-    let (t, fails) = merged.into_inner().unwrap();
+    let (ts, fails) = merged.into_inner().unwrap();
     let mut violations: Vec<Violation> = Vec::new();
     let unobservable: Vec<&(String, String)> = fails.iter().filter(|f| f.0 == "unobservable" || f.0 == "panic_in_step").collect();
     for (kind, detail) in fails.iter().filter(|f| f.0 != "unobservable" && f.0 != "panic_in_step").take(3) {
         violations.push(Violation { signature: format!("C15:shuffle:{}", kind), summary: format!("shuffle / {}: {}", kind, truncate(detail, 500)), replay: json!({"kind": "c15", "tier": ctx.tier.name(), "seed": ctx.seed, "failure": {"kind": kind, "detail": detail}}) });
     }
-    // number of cells tested
-    let mut cells = 0u64;
-    for n in 2..=6 {
-        cells += t.perm[n].len() as u64;
-    }
-    for (n, _) in &t.pos {
-        cells += (n * n) as u64;
-    }
-    for (n, _) in &t.pair {
-        cells += (n * (n - 1) / 2) as u64;
+    // number of cells tested (both environments, all tables, plus the two kind-pair cells)
+    let mut cells = 6u64;
+    for t in &ts {
+        for n in 2..=6 {
+            cells += t.perm[n].len() as u64;
+        }
+        for (n, _) in &t.pos {
+            cells += (n * n) as u64;
+        }
+        for (n, _) in &t.pair {
+            cells += (n * (n - 1) / 2) as u64;
+        }
     }
     let delta = 1e-9 / cells.max(1) as f64;
     let mut worst: Vec<Value> = Vec::new();
     let mut bias: Option<(String, String)> = None;
-    let mut test = |table: &str, n: usize, cell: String, count: u64, total: u64, p: f64, bias: &mut Option<(String, String)>| -> f64 {
+    let test = |table: &str, envk: &str, n: usize, cell: String, count: u64, total: u64, p: f64, bias: &mut Option<(String, String)>| -> f64 {
         let exp = total as f64 * p;
         let thr = bernstein_t(total as f64, p, delta);
         let dev = (count as f64 - exp).abs();
         if dev > thr && bias.is_none() {
-            *bias = Some((format!("{}_table_outside_bernstein_band", table), format!("n={} cell {}: count {} expected {:.1} +- {:.1} over {} steps", n, cell, count, exp, thr, total)));
+            *bias = Some((format!("{}_table_outside_bernstein_band", table), format!("{} environment, n={} cell {}: count {} expected {:.1} +- {:.1} over {} steps", envk, n, cell, count, exp, thr, total)));
         }
         dev / thr
     };
-    for n in 2..=6usize {
-        let total = t.perm_n[n];
-        if total == 0 {
-            continue;
+    for (ki, t) in ts.iter().enumerate() {
+        let envk = ["single-asset", "multi-asset"][ki];
+        for n in 2..=6usize {
+            let total = t.perm_n[n];
+            if total == 0 {
+                continue;
+            }
+            let p = 1.0 / t.perm[n].len() as f64;
+            let mut mx: f64 = 0.0;
+            for (i, c) in t.perm[n].iter().enumerate() {
+                mx = mx.max(test("permutation", envk, n, format!("#{}", i), *c, total, p, &mut bias));
+            }
+            worst.push(json!({"env": envk, "table": "permutation", "n": n, "steps": total, "cells": t.perm[n].len(), "max_deviation_over_threshold": (mx * 1000.0).round() / 1000.0, "min_count": t.perm[n].iter().min(), "max_count": t.perm[n].iter().max()}));
         }
-        let p = 1.0 / t.perm[n].len() as f64;
-        let mut mx: f64 = 0.0;
-        for (i, c) in t.perm[n].iter().enumerate() {
-            mx = mx.max(test("permutation", n, format!("#{}", i), *c, total, p, &mut bias));
+        for (n, (total, v)) in &t.pos {
+            let p = 1.0 / *n as f64;
+            let mut mx: f64 = 0.0;
+            for item in 0..*n {
+                for pos in 0..*n {
+                    mx = mx.max(test("position", envk, *n, format!("item {} at position {}", item, pos), v[item * n + pos], *total, p, &mut bias));
+                }
+            }
+            worst.push(json!({"env": envk, "table": "position", "n": n, "steps": total, "cells": n * n, "max_deviation_over_threshold": (mx * 1000.0).round() / 1000.0}));
         }
-        worst.push(json!({"table": "permutation", "n": n, "steps": total, "cells": t.perm[n].len(), "max_deviation_over_threshold": (mx * 1000.0).round() / 1000.0, "min_count": t.perm[n].iter().min(), "max_count": t.perm[n].iter().max()}));
-    }
-    for (n, (total, v)) in &t.pos {
-        let p = 1.0 / *n as f64;
-        let mut mx: f64 = 0.0;
-        for item in 0..*n {
-            for pos in 0..*n {
-                mx = mx.max(test("position", *n, format!("item {} at position {}", item, pos), v[item * n + pos], *total, p, &mut bias));
+        for (n, (total, v)) in &t.pair {
+            let mut mx: f64 = 0.0;
+            for i in 0..*n {
+                for j in (i + 1)..*n {
+                    mx = mx.max(test("pair_order", envk, *n, format!("item {} before item {}", i, j), v[i * n + j], *total, 0.5, &mut bias));
+                }
+            }
+            worst.push(json!({"env": envk, "table": "pair_order", "n": n, "steps": total, "cells": n * (n - 1) / 2, "max_deviation_over_threshold": (mx * 1000.0).round() / 1000.0}));
+        }
+        for k in 0..2 {
+            if t.dep_pairs[k] > 0 {
+                // an instruction that refers to an order created in the same step is as likely to be
+                // processed before that order's placement as after it
+                let what = ["cancellation", "modification"][k];
+                let r = test("same_step_dependent_pair", envk, 0, format!("{} of an order created in the same step took effect", what), t.dep_effective[k], t.dep_pairs[k], 0.5, &mut bias);
+                worst.push(json!({"env": envk, "table": "same_step_dependent_pair", "kind": what, "steps": t.dep_pairs[k], "took_effect": t.dep_effective[k], "max_deviation_over_threshold": (r * 1000.0).round() / 1000.0}));
             }
         }
-        worst.push(json!({"table": "position", "n": n, "steps": total, "cells": n * n, "max_deviation_over_threshold": (mx * 1000.0).round() / 1000.0}));
-    }
-    for (n, (total, v)) in &t.pair {
-        let mut mx: f64 = 0.0;
-        for i in 0..*n {
-            for j in (i + 1)..*n {
-                mx = mx.max(test("pair_order", *n, format!("item {} before item {}", i, j), v[i * n + j], *total, 0.5, &mut bias));
-            }
+        if t.kind_pairs > 0 {
+            // instruction kinds: a cancellation is as likely to be processed before a new order as after it
+            let r = test("instruction_kind", envk, 0, "first cancellation before first new order".into(), t.cancel_first, t.kind_pairs, 0.5, &mut bias);
+            worst.push(json!({"env": envk, "table": "instruction_kind", "steps": t.kind_pairs, "cancel_first": t.cancel_first, "max_deviation_over_threshold": (r * 1000.0).round() / 1000.0}));
         }
-        worst.push(json!({"table": "pair_order", "n": n, "steps": total, "cells": n * (n - 1) / 2, "max_deviation_over_threshold": (mx * 1000.0).round() / 1000.0}));
     }
     if let Some((kind, detail)) = bias {
         violations.push(Violation { signature: format!("C15:shuffle:{}", kind), summary: format!("shuffle / {}: {}", kind, detail), replay: json!({"kind": "c15", "tier": ctx.tier.name(), "seed": ctx.seed, "failure": {"kind": kind, "detail": detail}}) });
     }
     let mut d = Distinct::new(8_000_000);
-    for h in &t.distinct {
-        d.add(*h);
+    for t in &ts {
+        for h in &t.distinct {
+            d.add(*h);
+        }
     }
+    let steps: u64 = ts.iter().map(|t| t.steps).sum();
+    let mixed_steps: u64 = ts.iter().map(|t| t.mixed_steps).sum();
+    let content_checks: u64 = ts.iter().map(|t| t.content_checks).sum();
+    let replay_checks: u64 = ts.iter().map(|t| t.replay_checks).sum();
     let mut inconclusive = None;
     if let Some(u) = unobservable.first() {
         // positions could not be read off the time-stamps: nothing can be said about the shuffle
@@ -829,26 +947,26 @@ pub fn c15(ctx: &Ctx) -> i32 {
         violations.clear();
     }
     let inconclusive = inconclusive.or(floors(&[
-        ("steps", t.steps, 1_000_000),
-        ("mixed_steps", t.mixed_steps, 10_000),
-        ("multi_asset_steps", t.multi_asset_steps, 100_000),
-        ("content_independence_checks", t.content_checks, 1000),
-        ("replay_checks", t.replay_checks, 1000),
+        ("steps", steps, 1_000_000),
+        ("mixed_steps", mixed_steps, 10_000),
+        ("multi_asset_steps", ts[1].steps, 100_000),
+        ("content_independence_checks", content_checks, 1000),
+        ("replay_checks", replay_checks, 1000),
     ]));
-    let sample_perm: Vec<Value> = (2..=4).map(|n| json!({"n": n, "permutation_counts": t.perm[n]})).collect();
+    let sample_perm: Vec<Value> = (2..=4).map(|n| json!({"n": n, "env": "single-asset", "permutation_counts": ts[0].perm[n]})).collect();
     let cov = json!({
-        "evaluations": t.steps,
+        "evaluations": steps,
         "distinct_nontrivial": d.len(),
-        "rule": "cases = seeded simulation steps (fresh Xoroshiro128** seed per 12 steps) whose n queued instructions all have a visible processed position (new orders: arrival time - start; cancellations of active orders: end time - start; contents vary independently of the shuffle generator); distinct = distinct position maps (item -> processed position) observed; non-trivial = every recorded step (n >= 2)",
+        "rule": "cases = seeded simulation steps (fresh Xoroshiro128** seed per 12 steps) whose n queued instructions all have a visible processed position (rank of the time-stamp within the batch: arrival time of new orders, end time of cancellations of active orders; contents vary independently of the shuffle generator); batch sizes 2..13, 16, 24, 32, 48, 64; separate tables for the single- and the multi-asset environment; distinct = distinct position maps (item -> processed position) observed; non-trivial = every recorded step (n >= 2)",
         "samples": sample_perm,
         "tables": worst,
         "cells_tested": cells,
         "delta_per_cell": delta,
         "false_alarm_bound_per_run": 1e-9,
-        "mixed_kind_steps": t.mixed_steps,
-        "multi_asset_steps": t.multi_asset_steps,
-        "content_independence_checks": t.content_checks,
-        "replay_determinism_checks": t.replay_checks,
+        "mixed_kind_steps": mixed_steps,
+        "multi_asset_steps": ts[1].steps,
+        "content_independence_checks": content_checks,
+        "replay_determinism_checks": replay_checks,
     });
     let assumptions = vec![
         "streams of Xoroshiro128** from different seeds are treated as independent; under that assumption the whole run raises a false alarm with probability <= 1e-9 (Bernstein inequality per cell, union bound over all cells)".to_string(),
